@@ -9,7 +9,7 @@ import tempfile
 from hypothesis import strategies as st
 
 from vlib import gen, serial
-from vlib.core import Part
+from vlib.core import Part, nested_part
 from vlib.observe import walk
 
 from nutree import Tree, TypedTree
@@ -59,6 +59,7 @@ def expected_maps(prof, tree, cfg):
     vm = serial.resolve_value_map(cfg.get("value_map", True), tree, prof)
     if cfg.get("value_map_dup") is not None:
         vm = serial.with_duplicate(vm, cfg["value_map_dup"])  # (the header shows the caller's list as it was passed)
+    vm = serial.with_padding(vm, cfg.get("value_map_pad"))
     if vm is True:
         value_map = {k: list(v) for k, v in cls.DEFAULT_VALUE_MAP.items()}
         kind_auto = prof.typed and "kind" not in value_map
@@ -747,4 +748,5 @@ PARTS = [
     Part("guide-docs", run_guide, enum=guide_cases),
     Part("mixed-docs", run_mixed, strategy=lambda tier: mixed_cases(tier), n={"quick": 300, "thorough": 20000}),
     Part("malformed", run_malformed, strategy=lambda tier: malformed_cases(tier), n={"quick": 300, "thorough": 10000}),
+    nested_part("C12", ["reader", "writer", "mixed-docs"], {"LC_ALL": "C", "LANG": "C", "PYTHONUTF8": "0", "PYTHONCOERCECLOCALE": "0", "PYTHONIOENCODING": "utf8"}, "c-locale", "text files opened without an explicit encoding are read and written as ASCII"),
 ]
